@@ -51,7 +51,14 @@ impl Distribution for Gumbel {
     type Output = f64;
     /// Samples from the given Gumbel distribution.
     fn sample(&self) -> Self::Output {
-        self.mu - self.beta * (-self.uniform_gen.sample().ln()).ln()
+        // a uniform draw of exactly 0 would give ln(0): draw again
+        let u = loop {
+            let u = self.uniform_gen.sample();
+            if u > 0. {
+                break u;
+            }
+        };
+        self.mu - self.beta * (-u.ln()).ln()
     }
 }
 
